@@ -115,27 +115,34 @@ def ws_frames(s):
     return [f[2] for f in s.frames]
 
 
-def keepalive(w, sid, t_end, polls=None):
-    """A healthy polling client until virtual time t_end: it always has a poll outstanding and answers every PING with a PONG at
-    once. Returns False if the session ended meanwhile."""
+def keepalive(w, sid, t_end, polls=None, lag=0.0):
+    """A healthy polling client until virtual time t_end: it always has a poll outstanding and answers every PING with a PONG
+    that reaches the server `lag` seconds later (at once by default). Returns False if the session ended meanwhile."""
+    due = []
+    g = None
     while w.now < t_end:
-        g = poll(w, sid, run=False)
-        if polls is not None:
-            polls.append(g)
-        w.run()
-        while not g.done and w.now < t_end:
-            d = w.next_deadline()
-            if d is None or d > t_end:
-                w.run_until(t_end)
-                break
-            w.run_until(d)
-        if not g.done:
-            return True
-        if g.status != 200:
-            return False
-        pk = decode_body(g.text())
-        if any(t == 1 for t, d in pk):
-            return False
-        if any(t == 2 for t, d in pk):
+        if g is None:
+            g = poll(w, sid, run=False)
+            if polls is not None:
+                polls.append(g)
+            w.run()
+        if g.done:
+            if g.status != 200:
+                return False
+            pk = decode_body(g.text())
+            if any(t == 1 for t, d in pk):
+                return False
+            if any(t == 2 for t, d in pk):
+                if lag:
+                    due.append(w.now + lag)
+                else:
+                    post(w, sid, '3')
+            g = None
+            continue
+        if due and due[0] <= w.now + 1e-12:
+            due.pop(0)
             post(w, sid, '3')
+            continue
+        d = w.next_deadline()
+        w.run_until(min(x for x in (d, due[0] if due else None, t_end) if x is not None))
     return True
